@@ -16,7 +16,9 @@
      "affected"   kind and contents are allowed but not with this affected-row count
      "insert_id"  ... not with this insert id / LAST_INSERT_ID() value
      "inv:pk" "inv:uniq" "inv:notnull" "inv:check" "inv:gen"
-                  the LOGGED tables newly break an integrity invariant (evaluated on the log itself)
+                  the LOGGED tables newly break an integrity invariant (evaluated on the log itself;
+                  inv:check = some enforced CHECK is FALSE for a logged row as logged, or for the row with
+                  its generated columns recomputed from the logged base columns)
      "probe"      an index-driven lookup returned rows that are not the filter over the logged rows)
    plus binok: the logged outcome is exactly what the specification allows when the _ai_ci
    collations of the table's columns are replaced by binary ones (classification only),
@@ -83,7 +85,7 @@ Judge(e) ==
               \o (IF Broke(PKUniqueT) THEN <<"inv:pk">> ELSE <<>>)
               \o (IF Broke(UniqueIdxT) THEN <<"inv:uniq">> ELSE <<>>)
               \o (IF Broke(NotNullT) THEN <<"inv:notnull">> ELSE <<>>)
-              \o (IF Broke(ChecksT) THEN <<"inv:check">> ELSE <<>>)
+              \o (IF Broke(ChecksBothT) THEN <<"inv:check">> ELSE <<>>)
               \o (IF Broke(GenT) THEN <<"inv:gen">> ELSE <<>>)
               \o (IF badp # {} THEN <<"probe">> ELSE <<>>)
       \* would the logged outcome be allowed if every key / row comparison ignored the _ai_ci collations?
@@ -96,7 +98,7 @@ Judge(e) ==
                   /\ \A t \in DOMAIN st.tabs :
                         BagEqRows(e.post[t], IF t = o.t THEN o.rows ELSE st.tabs[t].rows, CollsOf(binst.tabs[t]))
       Sound(tb) == \A t \in DOMAIN tb : /\ KeysOK(tb[t], tb[t].rows) /\ NotNullT(tb[t], tb[t].rows)
-                                         /\ ChecksT(tb[t], tb[t].rows) /\ GenT(tb[t], tb[t].rows)
+                                         /\ ChecksBothT(tb[t], tb[t].rows) /\ GenT(tb[t], tb[t].rows)
       report == IF what = <<>> THEN TRUE ELSE
                 PrintT("MM " \o ToJson([l |-> l, id |-> e.id, what |-> what, badprobes |-> badp,
                                          preok |-> Sound(st.tabs), postok |-> Sound(tabs2), binok |-> binok,
